@@ -157,6 +157,17 @@ class Flattener(object):
         self.skipped = []
         self.caller_names = _all_names(fi.node)
         self._overridden = {}
+        # closures defined directly in the body (read-only use of the enclosing names) are helpers like any other
+        self.local_defs = {}
+        for st in fi.node.body:
+            if isinstance(st, ast.FunctionDef) and not st.decorator_list:
+                stored = _stored_names(st) - {a.arg for a in st.args.args}
+                outer = _stored_names(ast.Module(body=[x for x in fi.node.body if x is not st], type_ignores=[]))
+                if not any(isinstance(x, (ast.Nonlocal, ast.Global)) for x in ast.walk(st)):
+                    sub = FuncInfo(fi.module, st, fi.cls)
+                    sub.qualname = fi.qualname + '.<locals>.' + st.name
+                    sub.local_closure = True
+                    self.local_defs[st.name] = sub
 
     # ---- resolution ------------------------------------------------------------------------------
     def resolve(self, call, cls):
@@ -183,6 +194,8 @@ class Flattener(object):
                 return None
             return None
         if isinstance(f, ast.Name):
+            if f.id in self.local_defs:
+                return self.local_defs[f.id], None
             callee = prog.functions.get((self.fi.module.rel, f.id))
             if callee is not None:
                 return callee, None
@@ -199,7 +212,7 @@ class Flattener(object):
         return self._overridden[key]
 
     def eligible(self, callee, call):
-        if not _is_private(callee.name):
+        if not _is_private(callee.name) and not getattr(callee, 'local_closure', False):
             return False
         if self.accept is not None and not self.accept(callee):
             return False
@@ -644,8 +657,44 @@ class Flattener(object):
             out.extend(self.inline_stmt(s, cls, stack))
         return out
 
+    def lower_comprehensions(self, stmts):
+        """x = [elt for t in it if c]  ==>  x = []; for t in it: if c: x.append(elt)    (exact; only when the
+        comprehension calls an inlinable statement helper, so that the helper can then be looked through)"""
+        out = []
+        for s in stmts:
+            for field in ('body', 'orelse', 'finalbody'):
+                blk = getattr(s, field, None)
+                if isinstance(blk, list) and blk and isinstance(blk[0], ast.stmt):
+                    setattr(s, field, self.lower_comprehensions(blk))
+            if isinstance(s, ast.Try):
+                for h in s.handlers:
+                    h.body = self.lower_comprehensions(h.body)
+            if isinstance(s, ast.Assign) and len(s.targets) == 1 and isinstance(s.targets[0], ast.Name) and \
+                    isinstance(s.value, ast.ListComp) and len(s.value.generators) == 1 and \
+                    self.statement_helper_in(s.value, self.fi.cls, [self.fi.key]) and \
+                    s.targets[0].id not in {n.id for n in ast.walk(s.value) if isinstance(n, ast.Name)}:
+                gen = s.value.generators[0]
+                name = s.targets[0].id
+                app = ast.Expr(value=ast.Call(func=ast.Attribute(value=ast.Name(id=name, ctx=ast.Load()), attr='append', ctx=ast.Load()),
+                                              args=[s.value.elt], keywords=[]))
+                body = [ast.copy_location(app, s)]
+                for cond in reversed(gen.ifs):
+                    body = [ast.copy_location(ast.If(test=cond, body=body, orelse=[]), s)]
+                loop = ast.For(target=gen.target, iter=gen.iter, body=body, orelse=[], type_comment=None)
+                init = ast.Assign(targets=[ast.Name(id=name, ctx=ast.Store())], value=ast.List(elts=[], ctx=ast.Load()))
+                out.append(ast.copy_location(init, s))
+                out.append(ast.copy_location(loop, s))
+                self.inlined.append(self.fi.key + '::<comprehension>')
+                continue
+            out.append(s)
+        return out
+
     def run(self):
         node = clone(self.fi.node)
+        if self.local_defs:
+            # the nested definitions themselves stay in place (harmless), their clones are resolved by name
+            pass
+        node.body = self.lower_comprehensions(node.body)
         node.body = self.rewrite_block(node.body, self.fi.cls, [self.fi.key])
         ast.fix_missing_locations(node)
         for n in ast.walk(node):
